@@ -66,7 +66,7 @@ def spec_binding(ops):
 
 def gen(ctx):
     rng = ctx.rng
-    n = 1500 if ctx.tier == "quick" else 40000
+    n = 1500 if ctx.tier == "quick" else 200000
     cases = []
     for _ in range(n):
         ops = []
